@@ -430,12 +430,12 @@ theorem flashLoop_cons (pin d : Int) (l : FLed) (v : Int) (rest : List Int) :
 
 theorem flashOne_inv (pin : Int) (l : FLed) (v : Int) : LedInvL (flashOne pin l v).1 := by
   unfold flashOne LedInvL
-  split_ifs <;> (simp; omega)
+  split_ifs <;> first | (simp; omega) | simp
 
 theorem flashOne_duties (pin : Int) (l : FLed) (v : Int) :
     ∀ d ∈ dutiesL (flashOne pin l v).2, 0 ≤ d ∧ d ≤ 255 := by
   unfold flashOne
-  split_ifs <;> (simp; omega)
+  split_ifs <;> first | (simp; omega) | simp
 
 theorem flashOne_delays (pin : Int) (l : FLed) (v : Int) : delaysL (flashOne pin l v).2 = [] := by
   unfold flashOne
@@ -608,5 +608,19 @@ theorem flash_agree (pin ms : Int) (delay : Val K) : ∀ (ints : List Int) (f : 
       refine ⟨i1, i2, ?_⟩
       rw [i3]
       simp [List.replicate_succ]
+
+theorem exists_ints (p : List (Val K)) (h : ∀ e ∈ p, ∃ n : Int, e = Val.int n) :
+    ∃ ints : List Int, p = ints.map Val.int := by
+  induction p with
+  | nil => exact ⟨[], rfl⟩
+  | cons e rest ih =>
+    obtain ⟨n, rfl⟩ := h e List.mem_cons_self
+    obtain ⟨ints, rfl⟩ := ih (fun e he => h e (List.mem_cons_of_mem _ he))
+    exact ⟨n :: ints, rfl⟩
+
+theorem map_toInt_int (ints : List Int) : (ints.map (Val.int : Int → Val K)).map Val.toInt = ints := by
+  induction ints with
+  | nil => rfl
+  | cons n rest ih => simp only [List.map_cons, ih, Val.toInt]
 
 end Reduino.Lemmas.C04
